@@ -204,6 +204,7 @@ pub fn workload(rng: &mut Rng, tier: Tier) -> Workload {
         fillers: if bare { 0 } else { rng.range(0, 3) as usize },
         actions,
         file_pool: rng.range(1, 3) as usize,
+        file_base: rng.usize_below(14),
         leading_options: rng.chance(1, 6),
         misplaced_option: false,
         allow_or: rng.chance(2, 3),
